@@ -1,5 +1,5 @@
 """C03 -- the hook sees exactly the children the parent owns, in the documented shape."""
-from props import sync_level
+from props import sync_level, all_families
 from plan_conv import CONV_PLAN
 
 MANIFEST = dict(
@@ -13,4 +13,4 @@ MANIFEST = dict(
 
 
 def run(scr, tier, replay_file):
-    return sync_level(scr, tier, "C03", "C03_", CONV_PLAN, replay_file)
+    return sync_level(scr, tier, "C03", "C03_", all_families(CONV_PLAN), replay_file)
